@@ -240,7 +240,7 @@ def one_session(args):
             beh['stderr'] = gl.edit_first_line(beh['stderr'], rnd)
             what = 'stderr edited'
         else:
-            beh['exit'] = 3 if beh['exit'] == 0 else rnd.choice([0, 4, 4, 1])      # also from one failure status to another
+            beh['exit'] = (3 if tid % 3 else -15) if beh['exit'] == 0 else rnd.choice([0, 4, 4, 1])      # also from one failure status to another, and to death by a signal
             what = 'exit status changed'
         gl.set_behaviour(case, beh)
         events.append({'tid': tid, 'ev': 'Perturb', 'raised': 'none', 'target': t, 'what': what, 'beh': beh_abstract(case, beh, ids)})
@@ -286,6 +286,25 @@ def script_passes_signature(e, det):
         name = [n for n, sp in det['behaviour']['files'].items() if sp and sp['kind'] == 'binary']
         sig['binary_ext'] = os.path.splitext(name[0])[1] if name else ''
     return sig
+
+
+def _changed_line_spells_token(det, m_byte, m_append):
+    """For a binary output compared as ISO-8859-1 text (D19): does the line (str.splitlines) that holds the changed / appended
+    byte contain the host or the user name?  det['behaviour'] holds the bytes as generated (before the change)."""
+    import socket, getpass
+    bs = [sp['bytes'] for sp in det['behaviour']['files'].values() if sp and sp['kind'] == 'binary']
+    if not bs or not (m_byte or m_append):
+        return False
+    text = bytes(bs[0]).decode('iso-8859-1')
+    pos = len(text) - 1 if m_append else int(re.match(r'byte (\d+)', m_byte.group(0)).group(1))
+    if m_append and text.splitlines(True)[-1:] != text.splitlines()[-1:]:
+        return False        # the appended byte starts a line of its own
+    upto = 0
+    for line in text.splitlines(True):
+        if upto <= pos < upto + len(line):
+            return any(tok and tok in line for tok in (socket.gethostname(), getpass.getuser()))
+        upto += len(line)
+    return False
 
 
 def run_sessions(chk, seed, nsessions, nperturb, clauses, kind):
@@ -381,6 +400,9 @@ def run_sessions(chk, seed, nsessions, nperturb, clauses, kind):
                         m2_ = re.match(r'one byte appended \(\d+ bytes before\): (\d+)', prev[-1]['what'])
                         if m2_ and int(m2_.group(1)) in seps:
                             sig['line_separator_swap'] = True      # a line end added after the last line: the same reading-as-text defect
+                        # the same reading-as-text defect, third face: the changed byte sits on a "line" (ISO-8859-1 reading) whose bytes
+                        # happen to spell the host or user name, and lines that mention the machine are excluded from the comparison
+                        sig['changed_line_spells_machine_token'] = _changed_line_spells_token(det, m_, m2_)
                 chk.violation(sig, {'case': {k: v for k, v in det.items() if k != 'wd'}, 'event': e,
                                     'previous_perturbation': prev[-1] if prev else None,
                                     'how': 'python -m tdda.referencetest.gentest in a scratch directory; generated test run with '
